@@ -20,6 +20,7 @@ RULE = ("Hypothesis: (sequence, numerator, denominator in {1,2,3,4,6,8,12,16,24,
         "conflicting / second different signature is present; any other exception type is a violation; bar.copy() has equal "
         "signature, key and content and shares no message object. Non-trivial: duration != capacity or a signature event "
         "present. Distinct by case digest.")
+RULE = RULE + " Rounds e-f: zero-length grace notes, a read of the absolute view / duration before copy, arbitrary ill-formed relative lists ('any sequence')."
 ASSUMPTIONS = ["a duplicate identical signature may be accepted or rejected (normalise may merge it)"]
 TIERS = {"quick": dict(shards=8, examples=1200), "thorough": dict(fuzz_runs=20000, fuzz_shards=4, shards=16, examples=15000)}
 
